@@ -245,22 +245,94 @@ def cellEq (v key : S) : Except Crash Bool :=
   | .err _ => .ok false
   | _ => cmpE .eq v key
 
-/-- `lookup_array == sorted(lookup_array)` as "no element is smaller than its predecessor" -/
-def ascendingE : List S → Except Crash Bool
-  | a :: b :: r =>
-    match cmpE .lt b a with
-    | .error e => .error e
-    | .ok true => .ok false
-    | .ok false => ascendingE (b :: r)
-  | _ => .ok true
+/-! ### `lookup_array != sorted(lookup_array)` as Python performs it
 
-def descendingE : List S → Except Crash Bool
-  | a :: b :: r =>
-    match cmpE .lt a b with
+`sorted` is CPython's list sort.  For fewer than 64 elements it is: find the leading run
+(`count_run`: strictly descending — then reversed in place — or non-descending), then insert every
+further element by binary search (`binarysort`).  The comparisons, in exactly this order, are
+`x < y` calls; the first one that raises ends the call.  The model keeps the position of every
+element (its identity): list `!=` first tests identity and only then `==`.  Lists of 64 or more
+elements whose leading run is not the whole list need timsort's merges: not modelled. -/
+
+/-- `x < y` as `sorted` evaluates it (`ISLT`): `ExcelType.__lt__`, or the reflected `__gt__` when `x` is
+    an error object (AttributeError: the error has no `_sort_key`); two error objects do not support
+    `<` at all (TypeError). -/
+def ltE (x y : S) : Except Crash Bool :=
+  match x, y with
+  | .err _, .err _ => .error .typeError
+  | _, _ => cmpE .lt x y
+
+/-- an element with its position in the original list -/
+abbrev Item := Nat × S
+
+/-- `count_run` after the first comparison: extend the run while `x < prev` has the value `desc`;
+    `acc` is the run so far, last element first. Returns the reversed run and the rest. -/
+def extendRun (desc : Bool) : Item → List Item → List Item → Except Crash (List Item × List Item)
+  | _, acc, [] => .ok (acc, [])
+  | prev, acc, x :: rest =>
+    match ltE x.2 prev.2 with
     | .error e => .error e
-    | .ok true => .ok false
-    | .ok false => descendingE (b :: r)
-  | _ => .ok true
+    | .ok b => if b = desc then extendRun desc x (x :: acc) rest else .ok (acc, x :: rest)
+
+/-- the binary search of `binarysort`: `l`, `r` bound the insertion point in the sorted prefix `a` -/
+def binSearch (pivot : S) (a : List Item) : Nat → Nat → Nat → Except Crash Nat
+  | 0, l, _ => .ok l
+  | fuel + 1, l, r =>
+    if l < r then
+      let p := l + (r - l) / 2
+      match ltE pivot (a.getD p (0, .blank)).2 with
+      | .error e => .error e
+      | .ok true => binSearch pivot a fuel l p
+      | .ok false => binSearch pivot a fuel (p + 1) r
+    else .ok l
+
+/-- insert the remaining elements one after the other -/
+def insertAll : List Item → List Item → Except Crash (List Item)
+  | a, [] => .ok a
+  | a, x :: rest =>
+    match binSearch x.2 a (a.length + 1) 0 a.length with
+    | .error e => .error e
+    | .ok pos => insertAll (a.take pos ++ x :: a.drop pos) rest
+
+/-- `sorted(items)`; `none` = needs merges (64 or more elements, not one run) -/
+def sortItems (items : List Item) : Except Crash (Option (List Item)) :=
+  match items with
+  | a :: b :: rest =>
+    match ltE b.2 a.2 with
+    | .error e => .error e
+    | .ok desc =>
+      match extendRun desc b [b, a] rest with
+      | .error e => .error e
+      | .ok (acc, remaining) =>
+        let run := if desc then acc else acc.reverse
+        if remaining.isEmpty then .ok (some run)
+        else if items.length ≥ 64 then .ok none
+        else match insertAll run remaining with
+          | .error e => .error e
+          | .ok r => .ok (some r)
+  | l => .ok (some l)
+
+/-- list `!=` on two lists of equal length: the first pair that is neither identical nor `==` -/
+def listNe : List Item → List Item → Except Crash Bool
+  | a :: as, b :: bs =>
+    if a.1 = b.1 then listNe as bs
+    else match cellEq a.2 b.2 with
+      | .error e => .error e
+      | .ok true => listNe as bs
+      | .ok false => .ok true
+  | _, _ => .ok false
+
+/-- `lookup_array != sorted(lookup_array, reverse=rev)`; `reverse=True` sorts the reversed list and
+    reverses the result. `none` = not modelled (see above). -/
+def sortedNe (rev : Bool) (cells : List S) : Except Crash (Option Bool) :=
+  let items : List Item := cells.zipIdx.map fun (x, i) => (i, x)
+  match sortItems (if rev then items.reverse else items) with
+  | .error e => .error e
+  | .ok none => .ok none
+  | .ok (some sorted) =>
+    match listNe items (if rev then sorted.reverse else sorted) with
+    | .error e => .error e
+    | .ok b => .ok (some b)
 
 inductive Mode | exact | asc | desc
   deriving DecidableEq, Repr
@@ -325,15 +397,17 @@ def MATCH (key : S) (rows : List (List S)) (mt : S) : Res :=
       | .error e => .crash e
       | .ok .exact => ofE (matchLoop .exact key cells 0)
       | .ok .asc =>
-        (match ascendingE cells with
+        (match sortedNe false cells with
          | .error e => .crash e
-         | .ok false => .ok (.err .na)           -- "Values must be sorted in ascending order"
-         | .ok true => ofE (matchLoop .asc key cells 0))
+         | .ok none => .unmodelled
+         | .ok (some true) => .ok (.err .na)           -- "Values must be sorted in ascending order"
+         | .ok (some false) => ofE (matchLoop .asc key cells 0))
       | .ok .desc =>
-        (match descendingE cells with
+        (match sortedNe true cells with
          | .error e => .crash e
-         | .ok false => .ok (.err .na)
-         | .ok true => ofE (matchLoop .desc key cells 0))
+         | .ok none => .unmodelled
+         | .ok (some true) => .ok (.err .na)
+         | .ok (some false) => ofE (matchLoop .desc key cells 0))
 
 /-! ## VLOOKUP -/
 
